@@ -99,4 +99,22 @@ theorem showInt_negSucc (n : Nat) : showInt (Int.negSucc n) = '-' :: Nat.toDigit
   show (toString (Int.negSucc n)).toList = _
   simp [toString, Int.repr, Nat.toList_repr]
 
+theorem scanInt_showInt_lem (i : Int) (rest : List Char) (hr : ∀ c, rest.head? = some c → isDigit c = false) :
+    scanInt (showInt i ++ rest) = some (i, rest) := by
+  cases i with
+  | ofNat n =>
+    rw [showInt_ofNat]
+    obtain ⟨c, cs, hcs, hc⟩ := toDigits_head_digit n
+    have hrun := digitsVal_run (Nat.toDigits 10 n) rest 0 (toDigits_all_digits n) hr
+    rw [hcs] at hrun ⊢
+    rw [List.cons_append, scanInt_digit c (cs ++ rest) hc, ← List.cons_append, hrun, ← hcs, foldDigits_toDigits]
+    rfl
+  | negSucc n =>
+    rw [showInt_negSucc]
+    obtain ⟨c, cs, hcs, hc⟩ := toDigits_head_digit (n + 1)
+    have hrun := digitsVal_run (Nat.toDigits 10 (n + 1)) rest 0 (toDigits_all_digits (n + 1)) hr
+    rw [hcs] at hrun ⊢
+    rw [List.cons_append, List.cons_append, scanInt_minus c (cs ++ rest) hc, ← List.cons_append, hrun, ← hcs, foldDigits_toDigits]
+    simp [Int.negSucc_eq]
+
 end Votca.C18
